@@ -1,14 +1,13 @@
 SPECIFICATION Spec
 CONSTANTS
-  NVarsSet <- MC_N2
-  Grid <- MC_GridFull2
-  MaxExcluded = 2
-  AllowMalformed = FALSE
+  NVarsSet <- MC_N12
+  Grid <- MC_GridQuick
+  MaxExcluded = 1
+  AllowMalformed = TRUE
   AsFound_SignedRelativeTest = FALSE
-  AsFound_NearZeroBandIgnoresDrift = FALSE
+  AsFound_NearZeroBandIgnoresDrift = TRUE
 INVARIANT TypeOK
 INVARIANT C15_AcceptedIsSteady
 INVARIANT C15_OtherwiseRaises
 PROPERTY C15_LeavesSolverUntouched
-CONSTRAINT Emit
 CHECK_DEADLOCK FALSE
